@@ -94,6 +94,41 @@ def linkcopy(ctx, prog, rule="R-LINKCOPY"):
                 ctx.ob(rule, "setString copies everything else", ok, fn.loc(i), "", nontrivial=False)
 
 
+def strkind(ctx, prog, rule="R-STRKIND"):
+    """A switch on the stored kind treats the two string kinds alike: when
+    one of LinkedString / OwnedString has a case of its own, so has the
+    other (in every configuration) — a string kept by address must not fall
+    into `default:` where its copied twin is converted, printed or compared."""
+    T = tags.tag_table(prog)
+    n = 0
+    for fn in sorted(prog.fns.values(), key=lambda f: f.key):
+        if fn.cfg is None or not fn.file.startswith(("Variant/", "Json/", "MsgPack/", "Object/", "Array/", "Document/", "Collection/")):
+            continue
+        for head, reach in tags.switch_constraints(fn, T):
+            hb = fn.blocks()[head]
+            own = {}
+            for s_ in hb["succ"]:
+                if s_ < 0:
+                    continue
+                lb = fn.blocks()[s_].get("label")
+                if lb is not None and fn.s(lb)["k"] == "CaseStmt":
+                    for nm, v in T.items():
+                        if v == int(fn.s(lb)["lo"]):
+                            own[nm] = s_
+            if "LinkedString" not in own and "OwnedString" not in own:
+                continue
+            n += 1
+            ok = "LinkedString" in own and "OwnedString" in own
+            missing = "LinkedString" if "LinkedString" not in own else "OwnedString"
+            ctx.ob(rule, "%s: both string kinds have a case" % fn.short, ok, fn.loc(hb["cond"]) if not ok else fn.where,
+                   "" if ok else "%s has no case of its own here and falls into the default while the other string kind is handled: "
+                   "a string %s behaves differently from the same text %s" %
+                   (missing, "kept by address" if missing == "LinkedString" else "copied into the document",
+                    "copied into the document" if missing == "LinkedString" else "kept by address"), nontrivial=False)
+    ctx.floor(rule, "type switches that name a string kind", n, 4)
+    ctx.doc(rule, strkind.__doc__.strip().replace("\n", " "))
+
+
 def run(ctx, prog):
     ctx.doc("R-TAG", tags.__doc__.strip().split("\n\n")[1])
     ctx.doc("R-NUL", nul.__doc__.strip().split("\n\n")[1])
@@ -103,3 +138,4 @@ def run(ctx, prog):
     nul.run(ctx, prog)
     streq(ctx, prog)
     linkcopy(ctx, prog)
+    strkind(ctx, prog)
